@@ -530,6 +530,39 @@ func relaxAll(der []byte) []mutant {
 	return out
 }
 
+// diffAll applies each documented fork-versus-upstream difference to every element it can apply to:
+// D3 (fractional seconds in every GeneralizedTime), D2 (a leading 0x80 in every OID, in every
+// long-form tag number).
+func diffAll(der []byte) []mutant {
+	var out []mutant
+	for _, m := range []string{"D3", "D2-oid", "D2-tag"} {
+		roots, ok := parseNodes(der, 0)
+		if !ok {
+			return nil
+		}
+		var all []*node
+		flatten(roots, &all)
+		hit := false
+		for _, n := range all {
+			switch {
+			case m == "D3" && n.children == nil && len(n.tag) == 1 && n.tag[0] == 24 && len(n.content) >= 15:
+				n.content = append(append(append([]byte{}, n.content[:14]...), ".25"...), n.content[14:]...)
+				hit = true
+			case m == "D2-oid" && n.children == nil && len(n.tag) == 1 && n.tag[0] == 6 && len(n.content) > 0:
+				n.content = append([]byte{0x80}, n.content...)
+				hit = true
+			case m == "D2-tag" && len(n.tag) > 1:
+				n.tag = append([]byte{n.tag[0], 0x80}, n.tag[1:]...)
+				hit = true
+			}
+		}
+		if hit {
+			out = append(out, mutant{serialize(roots), m})
+		}
+	}
+	return out
+}
+
 // focusedTypes: each relaxable leaf kind at each structural position (top level, struct field,
 // nested struct, sequence element, sequence of structs, struct holding a sequence, SET OF,
 // explicitly tagged field, field tagged lax inside a strict parent).
@@ -550,6 +583,11 @@ func focusedTypes() []*asn1gen.Ty {
 			st("", sq(sq(st(tag, leaf())))))
 	}
 	out = append(out, &asn1gen.Ty{Kind: "seqof", SetName: 1, Elem: &asn1gen.Ty{Kind: "int64"}}, &asn1gen.Ty{Kind: "seqof", SetName: 2, Elem: &asn1gen.Ty{Kind: "string"}})
+	// the documented differences: GeneralizedTime (D3), long-form tag numbers (D2)
+	tm := func() *asn1gen.Ty { return &asn1gen.Ty{Kind: "time"} }
+	out = append(out, st("generalized", tm()), sq(st("generalized", tm())), st("", st("generalized,optional", tm())), st("generalized,explicit,tag:2", tm()),
+		st("tag:31", &asn1gen.Ty{Kind: "int"}), st("tag:128,explicit", &asn1gen.Ty{Kind: "oid"}), sq(st("tag:16384", &asn1gen.Ty{Kind: "string"})),
+		st("application,tag:2097152", st("tag:31,optional", &asn1gen.Ty{Kind: "bool"})), st("", &asn1gen.Ty{Kind: "any"}))
 	return out
 }
 
@@ -674,6 +712,7 @@ func main() {
 			inputs = append(inputs, mutant{mf.out, "exact"})
 			if focused {
 				inputs = append(inputs, relaxAll(mf.out)...)
+				inputs = append(inputs, diffAll(mf.out)...)
 			}
 			inputs = append(inputs, mutate(g, mf.out)...)
 		}
